@@ -66,6 +66,15 @@ func NewFS() *FSState { return &FSState{Handles: map[*os.File]*Handle{}} }
 
 func ResetFS() { FS = NewFS(); fsDirs = nil }
 
+// Restart: the process is gone, the files stay (process-kill semantics).
+func (s *FSState) Restart() {
+	s.Dead = false
+	s.CrashAt = 0
+	s.Handles = map[*os.File]*Handle{}
+	s.OpenCount = 0
+	s.Steps = 0
+}
+
 var fileIDs = []string{"file0", "file1", "file2", "file3", "file4", "file5", "file6", "file7", "file8", "file9"}
 
 func (s *FSState) step(op string) bool {
@@ -261,6 +270,18 @@ func Os_File_Write(f *os.File, p []byte) (int, error) {
 		return 0, &FSError{"write", "", 3}
 	}
 	if !FS.step("write") {
+		if FS.CrashAt != 0 && FS.Steps == FS.CrashAt && len(p) > 0 {
+			// the process is killed during this write: an arbitrary prefix of
+			// the data has reached the file
+			k := vsym.Int64("crash-partial-write")
+			vsym.Assume(k >= 0)
+			vsym.Assume(k <= int64(len(p)))
+			FS.Dead = false
+			FS.CrashAt = 0
+			_, _ = Os_File_Write(f, p[:k])
+			FS.Dead = true
+			FS.CrashAt = FS.Steps
+		}
 		return 0, &FSError{"write", h.F.Path, 6}
 	}
 	FS.writes++
